@@ -91,7 +91,9 @@ func runWorker(p *core.Prop, fs *findings.Set, tier, spec, out string) int {
 	assign := core.Assign(units, n)
 	res := core.NewResult()
 	res.Classifier = fs.Classifier(p.ID)
+	res.CurTier = tier
 	for _, ui := range assign[i] {
+		res.CurUnit = units[ui].Name
 		func() {
 			defer func() {
 				if r := recover(); r != nil {
@@ -170,6 +172,7 @@ func runParent(p *core.Prop, fs *findings.Set, tier string, jobs int) int {
 	var confirmed []core.Violation
 	var replayPaths []string
 	maxReport := 10
+	historyTried, historyConfirmed := 0, 0
 	for i := range res.New {
 		if len(confirmed) >= maxReport {
 			break
@@ -197,9 +200,33 @@ func runParent(p *core.Prop, fs *findings.Set, tier string, jobs int) int {
 		if fails == 5 && stable {
 			confirmed = append(confirmed, v)
 			replayPaths = append(replayPaths, path)
-		} else {
-			res.Internalf("violation %s did not replay deterministically (%d/5 failed, stable=%v): %v", path, fails, stable, v.Inputs)
+			continue
 		}
+		if fails == 0 && stable && v.Unit != "" && historyTried < 4 {
+			// The case passes in a fresh process: does it fail again when the whole unit is
+			// re-enumerated from the start (deterministic, history-dependent failure)?
+			historyTried++
+			v.HistoryDependent = true
+			b, _ := json.MarshalIndent(v, "", " ")
+			os.WriteFile(path, b, 0o644)
+			again := 0
+			for k := 0; k < 2; k++ {
+				err := exec.Command(self, "-replay", path).Run()
+				if ee, ok := err.(*exec.ExitError); ok && ee.ExitCode() == 1 {
+					again++
+				}
+			}
+			if again == 2 {
+				historyConfirmed++
+				confirmed = append(confirmed, v)
+				replayPaths = append(replayPaths, path)
+				continue
+			}
+		}
+		if fails == 0 && stable && historyConfirmed > 0 {
+			continue // same history-dependent pattern as the ones already confirmed
+		}
+		res.Internalf("violation %s did not replay deterministically (%d/5 failed, stable=%v): %v", path, fails, stable, v.Inputs)
 	}
 
 	var conformance map[string]any
@@ -364,6 +391,9 @@ func doReplay(path string) int {
 		fmt.Fprintln(os.Stderr, "no replay for property", v.Property)
 		return 2
 	}
+	if v.HistoryDependent {
+		return replayUnit(p, &v)
+	}
 	fails, detail := p.Replay(&v)
 	detail = strings.TrimSpace(detail)
 	if fails {
@@ -372,4 +402,37 @@ func doReplay(path string) int {
 	}
 	fmt.Printf("REPLAY property=%s %s/%s inputs=%q: passes: %s\n", v.Property, v.Scope, v.Kind, v.Inputs, detail)
 	return 0
+}
+
+// replayUnit re-runs the unit a history-dependent violation came from, in this fresh process,
+// and reports whether the same case fails again.
+func replayUnit(p *core.Prop, v *core.Violation) int {
+	fs, err := findings.Load(filepath.Join(root, "known_findings.json"))
+	if err != nil {
+		fmt.Fprintln(os.Stderr, err)
+		return 2
+	}
+	tier := v.Tier
+	if tier == "" {
+		tier = "quick"
+	}
+	for _, u := range p.Units(tier) {
+		if u.Name != v.Unit {
+			continue
+		}
+		res := core.NewResult()
+		res.Classifier = fs.Classifier(p.ID)
+		res.CurUnit, res.CurTier = u.Name, tier
+		u.Run(res)
+		for _, n := range res.New {
+			if n.Key() == v.Key() {
+				fmt.Printf("REPLAY property=%s %s/%s inputs=%q: still fails when unit %s is re-enumerated from a fresh process (history-dependent): %s\n", v.Property, v.Scope, v.Kind, v.Inputs, u.Name, n.Got)
+				return 1
+			}
+		}
+		fmt.Printf("REPLAY property=%s %s/%s inputs=%q: passes (unit %s re-enumerated)\n", v.Property, v.Scope, v.Kind, v.Inputs, u.Name)
+		return 0
+	}
+	fmt.Fprintln(os.Stderr, "unit not found:", v.Unit)
+	return 2
 }
